@@ -62,11 +62,26 @@ def handle (line : String) : String :=
     | some dc, some ds, some sc, some ss, some crs, some cws, some srs, some sws =>
       -- does the KEXINIT delivered to an endpoint carry the strict marker / ext-info-c?
       let real2 := mode == "mitm" || mode == "rekey"        -- both endpoints are the real code
-      let strictToClient := if real2 then true else o.str "strict" == "1"
-      let strictToServer := if real2 then true else o.str "strict" == "1"
+      -- `kl=`: the scripted peer's kex_algorithms list verbatim: the marker counts wherever it stands
+      let kl : Option (List String) := (o.get? "kl").map (fun s => s.splitOn ",")
+      let hasName (n : String) : Bool := match kl with | some l => l.contains n | none => false
+      let strictToClient := if real2 then true else if kl.isSome then hasName "kex-strict-s-v00@openssh.com" else o.str "strict" == "1"
+      let strictToServer := if real2 then true else if kl.isSome then hasName "kex-strict-c-v00@openssh.com" else o.str "strict" == "1"
+      -- negotiation (first name of the client's list that the server also lists) must yield the kex method
+      let alias := if m == "curve25519-sha256" then ["curve25519-sha256@libssh.org"] else []
+      let negotiated : Option String := match kl with
+        | none => some m
+        | some l =>
+          if mode == "peers" then ([m] ++ alias ++ ["ext-info-c", "kex-strict-c-v00@openssh.com"]).find? (fun n => l.contains n)
+          else l.find? (fun n => ([m] ++ alias ++ ["kex-strict-s-v00@openssh.com"]).contains n)
+      if negotiated != some m then
+        (let st := if mode == "peers" then i.str "c" else i.str "s"
+         if st == "err" then "ok" else s!"no usable key exchange in the peer's list, impl {st}")
+      else
       -- the server's EXT_INFO is written after NEWKEYS: not in the man-in-the-middle's plaintext log,
       -- but in the recording transport's log of the rekey runs
-      let extInfo := if mode == "rekey" then false else if mode == "peerc" then o.str "extinfo" == "1" else true
+      let extInfo := if mode == "rekey" then false
+        else if mode == "peerc" then (if kl.isSome then hasName "ext-info-c" else o.str "extinfo" == "1") else true
       let cRes :=
         if real2 || mode == "peers" then
           judgeEndpoint "client" ⟨strictToClient, kexTypesFor m true⟩ (toTypes dc) (toTypes sc) 0
